@@ -19,12 +19,13 @@ import shutil
 from mon import known
 
 VERIF = os.path.dirname(os.path.dirname(os.path.abspath(__file__)))
+REPO = os.environ.get("VERIF_REPO") or "/repo"
 PY = sys.executable
 
 
 def _env(hashseed="0"):
     env = dict(os.environ)
-    env["PYTHONPATH"] = "/repo:" + VERIF
+    env["PYTHONPATH"] = REPO + ":" + VERIF
     env["PYTHONDONTWRITEBYTECODE"] = "1"
     env["PYTHONHASHSEED"] = str(hashseed)
     env["MSDM_VERIF"] = "1"
